@@ -473,6 +473,140 @@ def _translate_terminate(io: ast.ClassDef) -> str:
     return txt.replace("RecvOut.ret sent ", "")
 
 
+# ------------------------------------------------------------------------------------------------------------------------
+# `DatabaseService.backup_database` / `restore_backup`: the database service's own logic around the two FTP transfers
+#
+# Vocabulary:
+#   self._can_perform_action() -> s.canAct          self.backup_server_ip is None -> !s.backupConfigured
+#   software_manager.software.get('ftp-client') -> the FTP client on the host (truthy iff installed: s.ftpc.isSome)
+#   self.db_file -> s.file (None = no live file)    file_system.get_file('downloads','database.db') -> s.downloads
+#   file_system.get_file('database','database.db', include_deleted=True) -> the database file, live or deleted: never None
+#       (the constructor creates it, deleting keeps it among the deleted files); `.deleted` -> s.file.isNone
+#   file_system.delete_file('downloads'|'database','database.db') -> downloads := none | file := none
+#   file_system.copy_file('downloads','database.db' -> 'database') -> file := the download (folder re-created), if there is one
+#   ftp_client_service.send_file(...) / request_file(...) -> `ftpSendFile` / `ftpRequestFile` of Model/Database.lean
+#   visible health bookkeeping (old_visible_state, visible_health_status) -> not modelled (skip list)
+XFER_SKIP_ASSIGN = ("old_visible_state", "self.db_file.visible_health_status")
+GET_DL = "self.file_system.get_file(folder_name='downloads', file_name='database.db')"
+GET_DB_ANY = "self.file_system.get_file(folder_name='database', file_name='database.db', include_deleted=True)"
+DEL_DL = "self.file_system.delete_file(folder_name='downloads', file_name='database.db')"
+DEL_DB = "self.file_system.delete_file(folder_name='database', file_name='database.db')"
+COPY = "self.file_system.copy_file(src_folder_name='downloads', src_file_name='database.db', dst_folder_name='database')"
+SEND_FILE_KW = {"dest_ip_address": "self.backup_server_ip", "src_file_name": "self.db_file.name", "src_folder_name": "'database'",
+                "dest_folder_name": "str(self.uuid)", "dest_file_name": "'database.db'"}
+REQ_FILE_KW = {"src_folder_name": "str(self.uuid)", "src_file_name": "'database.db'", "dest_folder_name": "'downloads'",
+               "dest_file_name": "'database.db'", "dest_ip_address": "self.backup_server_ip"}
+
+
+class TrXfer:
+    """Translator for backup_database / restore_backup; state = s (and b for the backup)."""
+
+    def __init__(self, with_backup: bool):
+        self.wb = with_backup
+
+    def ret(self, v: str) -> str:
+        return f"(s, b, {v})" if self.wb else f"(s, {v})"
+
+    def cond(self, e: ast.AST, env: dict) -> str:
+        t = u(e)
+        if isinstance(e, ast.UnaryOp) and isinstance(e.op, ast.Not):
+            return f"(!{self.cond(e.operand, env)})"
+        if t == "self._can_perform_action()":
+            return "s.canAct"
+        if t == "self.backup_server_ip is None":
+            return "(!s.backupConfigured)"
+        if t == "ftp_client_service" and env.get(t) == "ftpc":
+            return "s.ftpc.isSome"
+        if t == "self.db_file":
+            return "s.file.isSome"
+        if t == "self.db_file is None":
+            return "s.file.isNone"
+        if t == "response" and env.get(t) == "bool":
+            return "response"
+        if t == GET_DL + " is not None":
+            return "s.downloads.isSome"
+        if t == GET_DL + " is None":
+            return "s.downloads.isNone"
+        if t == "db_file is None" and env.get("db_file") == "anyfile":
+            return "false"
+        if t == "db_file.deleted" and env.get("db_file") == "anyfile":
+            return "s.file.isNone"
+        raise Unsupported(f"transfer: condition {t}")
+
+    def go(self, body, env: dict, ind: int) -> str:
+        pad = "  " * ind
+        body = list(body)
+        while body and (skippable(body[0]) or self.skip(body[0])):
+            body.pop(0)
+        if not body:
+            raise Unsupported("transfer: control falls off the end")
+        st, rest = body[0], body[1:]
+        if isinstance(st, ast.Return):
+            if not (isinstance(st.value, ast.Constant) and isinstance(st.value.value, bool)):
+                raise Unsupported(f"transfer: {u(st)}")
+            return pad + self.ret("true" if st.value.value else "false")
+        if isinstance(st, ast.If):
+            # both branches are straight-line state updates (possibly empty): one `let s := if ...`, the rest is shared
+            a, b2 = self.updates(st.body), self.updates(st.orelse)
+            if a is not None and b2 is not None:
+                return (f"{pad}let s := if {self.cond(st.test, env)} then {a} else {b2}\n" + self.go(rest, env, ind))
+            return (f"{pad}if {self.cond(st.test, env)} then\n{self.go(list(st.body) + rest, env, ind + 1)}\n{pad}else\n"
+                    f"{self.go(list(st.orelse) + rest, env, ind + 1)}")
+        tgt = val = None
+        if isinstance(st, ast.AnnAssign) and st.value is not None:
+            tgt, val = u(st.target), st.value
+        elif isinstance(st, ast.Assign) and len(st.targets) == 1:
+            tgt, val = u(st.targets[0]), st.value
+        if tgt is not None:
+            v = u(val)
+            if tgt == "software_manager" and v == "self.software_manager":
+                return self.go(rest, env, ind)
+            if tgt == "ftp_client_service" and v == "software_manager.software.get('ftp-client')":
+                return self.go(rest, dict(env, ftp_client_service="ftpc"), ind)
+            if tgt == "db_file" and v == GET_DB_ANY:
+                return self.go(rest, dict(env, db_file="anyfile"), ind)
+            if tgt == "response" and isinstance(val, ast.Call) and env.get("ftp_client_service") == "ftpc" and not val.args:
+                kw = {k.arg: u(k.value) for k in val.keywords}
+                f = u(val.func)
+                if f == "ftp_client_service.send_file" and kw == SEND_FILE_KW and self.wb:
+                    return (f"{pad}let r := ftpSendFile s b pathReq big\n{pad}let s := r.1\n{pad}let b := r.2.1\n{pad}let response := r.2.2\n"
+                            + self.go(rest, dict(env, response="bool"), ind))
+                if f == "ftp_client_service.request_file" and kw == REQ_FILE_KW and not self.wb:
+                    return (f"{pad}let r := ftpRequestFile s b pathReq pathResp sendOk\n{pad}let s := r.1\n{pad}let response := r.2\n"
+                            + self.go(rest, dict(env, response="bool"), ind))
+            raise Unsupported(f"transfer: assignment {u(st)[:120]}")
+        if isinstance(st, ast.Expr) and isinstance(st.value, ast.Call):
+            t = u(st.value)
+            if t == DEL_DL:
+                return f"{pad}let s := {{ s with downloads := none }}\n" + self.go(rest, env, ind)
+            if t == DEL_DB:
+                return f"{pad}let s := {{ s with file := none }}\n" + self.go(rest, env, ind)
+            if t == COPY:
+                return (f"{pad}let s := match s.downloads with | some d => {{ s with file := some d, folder := true }} | none => s\n"
+                        + self.go(rest, env, ind))
+            if t == "self.set_health_state(SoftwareHealthState.GOOD)":
+                return f"{pad}let s := {{ s with health := Health.good }}\n" + self.go(rest, env, ind)
+        raise Unsupported(f"transfer: statement {u(st)[:100]}")
+
+    @staticmethod
+    def skip(st: ast.stmt) -> bool:
+        return isinstance(st, ast.Assign) and len(st.targets) == 1 and u(st.targets[0]) in XFER_SKIP_ASSIGN
+
+    UPDATES = {DEL_DL: "{ s with downloads := none }", DEL_DB: "{ s with file := none }"}
+
+    def updates(self, stmts) -> "str | None":
+        """a block made only of bookkeeping and plain state updates -> the lean term of the new `s`; otherwise None"""
+        term = "s"
+        for x in stmts:
+            if skippable(x) or self.skip(x):
+                continue
+            if isinstance(x, ast.Expr) and isinstance(x.value, ast.Call) and u(x.value) in self.UPDATES:
+                term = f"(let s := {term}; {self.UPDATES[u(x.value)]})" if term != "s" else self.UPDATES[u(x.value)]
+                continue
+            return None
+        return term
+
+
 def _dict_field(d: ast.Dict, key: str):
     for k, v in zip(d.keys, d.values):
         if isinstance(k, ast.Constant) and k.value == key:
@@ -533,6 +667,9 @@ def emit() -> str:
         raise Unsupported("receive: does not start with the default result")
     recv_txt = TrRecv().go(rv.body, {}, 1)
 
+    bk_txt = TrXfer(True).go(find_method(db, "backup_database").body, {}, 1)
+    rs_txt = TrXfer(False).go(find_method(db, "restore_backup").body, {}, 1)
+
     return "\n".join([
         "import PrimaiteModel.Model.Database",
         "namespace Primaite.Gen.DatabaseTr",
@@ -557,4 +694,12 @@ def emit() -> str:
         "def receive (s : Server) (src : Nat) (payload : Raw) : Server × RecvOut :=",
         "  let sent : Option (Nat × Option Nat) := none",
         recv_txt,
+        "",
+        "/-- `DatabaseService.backup_database`, translated (the transfer itself is `ftpSendFile`) -/",
+        "def backupDatabase (s : Server) (b : Backup) (pathReq big : Bool) : Server × Backup × Bool :=",
+        bk_txt,
+        "",
+        "/-- `DatabaseService.restore_backup`, translated (the transfer itself is `ftpRequestFile`) -/",
+        "def restoreBackup (s : Server) (b : Backup) (pathReq pathResp sendOk : Bool) : Server × Bool :=",
+        rs_txt,
         "end Primaite.Gen.DatabaseTr", ""])
